@@ -45,7 +45,7 @@ FACTMAP = {
     "C20": ["body_Every", "body_Tick"],
     "C08": INPUT_BODIES,
     "C09": ["bufsize"] + INPUT_BODIES,
-    "C10": INPUT_BODIES,
+    "C10": INPUT_BODIES + ["body_Key_String"],   # a paste's string form is bracketed so that it never equals a key's
     "C11": INPUT_BODIES + MOUSE_BODIES,
     "C15": ["bufsize"] + INPUT_BODIES,
     "C14": ["body_Program_Println", "body_Program_Printf", "locks"] + RENDER_BODIES,   # handleMessages / write / repaint themselves: vt stream (behavioural)
